@@ -279,7 +279,7 @@ PROPS["C05"] = {
     "engine": "rapidcheck",
     "technique": "property-based testing (rapidcheck) against a live endpoint: generated response specifications, independent strict HTTP grammar as the oracle, boundary-directed maximum-response-size configurations",
     "level_text": "Generated specifications x configurations against the real server over loopback; the message grammar is written for the harness and shares no code with pistache. Exploration only. libFuzzer is not used (network round trip per case, no useful coverage signal across threads).",
-    "level_note": "The Date header's format is not judged; handler-set Content-Length/Transfer-Encoding/Connection are not generated; streamed responses run with the default limit (the refusal clause is about fixed-length responses); the request half (client-written requests) is checked by the C02 harness with the same grammar.",
+    "level_note": "The Date header's format is not judged; one case in four is the request half (pistache client -> raw capturing server, same grammar); handler-set Content-Length/Transfer-Encoding/Connection are not generated; streamed responses run with the default limit (the refusal clause is about fixed-length responses); the request half (client-written requests) is checked by the C02 harness with the same grammar.",
     "assumptions": ["loopback TCP delivers what the server wrote", "5 s is far above any legitimate response latency (3x replay rule for time-outs)"],
     "quick": {"stages": [{"kind": "replay"}, {"kind": "rc", "procs": 4, "cases": 500, "maxlen": 400}]},
     "thorough": {"stages": [{"kind": "replay"}, {"kind": "rc", "procs": 8, "cases": 8000, "maxlen": 400}]},
@@ -302,4 +302,43 @@ PROPS["C02"] = {
     "assumptions": ["8 s without settlement means a lost exchange (3x replay rule)"],
     "quick": {"stages": [{"kind": "replay"}, {"kind": "rc", "procs": 4, "cases": 600, "maxlen": 500}]},
     "thorough": {"stages": [{"kind": "replay"}, {"kind": "rc", "procs": 8, "cases": 10000, "maxlen": 500}]},
+}
+
+PROPS["C14"] = {
+    "source": "c14_limits.cc",
+    "level": "fault_enumeration",
+    "fuzz": False,
+    "rule": ("one case = a live endpoint with a generated configuration (maxRequestSize in {600..12000}, header and body time-outs in {1.0,1.5,2.0,3.0 s} in all combinations incl. header>body, "
+             "1-2 workers) and 6-14 scripted raw connections run concurrently: size scripts (request of total size L-1, L, L+1, L+k, 2L or within, split across 1-5 writes at offsets inside the "
+             "request line, the headers, at the blank line and inside the body) and stall scripts (pause after connect / inside the request line / inside the headers / inside the body, ending "
+             ">=1 s before or lasting >=1 s beyond the applicable time-out: min(header,body) in the head phase, body in the body phase, counted from connect). Oracle: total<=L -> first response "
+             "200 and the handler ran for that tag; total>L -> first response 413 and the handler never ran; in-time -> 200 never 408; past -> 408 then EOF within deadline+1.6 s and the handler "
+             "never ran. Non-trivial = size within +-1 of L with >=2 writes, or a body stall longer than the header time-out but inside the body time-out, or a 408 case with header != body "
+             "time-out; distinct = hash of the configuration and scripts. oracle_subchecks = scripts run."),
+    "engine": "rapidcheck",
+    "technique": "property-based testing (rapidcheck) with fault placement: generated configurations x scripted connections (byte-exact sizes around the limit, stalls placed on either side of the applicable time-out) against a live endpoint",
+    "level_text": "Fault (stall) placements and boundary sizes are generated and enumerated around each configured limit against the real server. Sizes are exact in bytes; time-outs are judged only outside a +-1 s window because the implementation samples the clock every 500 ms by design.",
+    "level_note": "Time-related verdicts follow the 3x replay rule. After a 413 only the first response is read (the rest of an oversized request is parsed as further requests). 'Start of that request' is the code's definition: accept, or the end of the previous request on the connection.",
+    "assumptions": ["client-side pacing (1.5 ms between writes, TCP_NODELAY) makes the server see separate reads; where it does not, the case is still valid, only less discriminating"],
+    "quick": {"stages": [{"kind": "replay"}, {"kind": "rc", "procs": 6, "cases": 5, "maxlen": 300, "max_size": 100}]},
+    "thorough": {"stages": [{"kind": "replay"}, {"kind": "rc", "procs": 8, "cases": 60, "maxlen": 300}]},
+}
+
+PROPS["C08"] = {
+    "source": "c08_lifecycle.cc",
+    "level": "exploration",
+    "fuzz": False,
+    "rule": ("one case = a live Http::Endpoint (1-3 workers; header/body time-outs 1 s when the case contains silent connections) and 2-12 rounds of 1-6 concurrent scripted raw connections: "
+             "0-2 complete requests, an optional request prefix cut at a generated offset, then one of orderly close / shutdown(SHUT_WR)+read to EOF / RST (SO_LINGER 0) / abort by RST while a "
+             "400 KiB response is pending behind a 4 KiB receive window / silence until the idle time-out. The handler records onConnection, onRequest and onDisconnection per Peer::getID() and "
+             "keeps a weak_ptr to every peer. Oracle after every round: each peer's callbacks are exactly one connect, request*, exactly one disconnect, no request after the disconnect; at the "
+             "end every Peer object has expired, /proc/self/fd is back to the idle baseline (taken after a warm-up connection) and a fresh connection is served. Non-trivial = >=2 termination kinds and >=1 connection ended with a request or response in flight; distinct = "
+             "hash of the configuration and scripts. oracle_subchecks = rounds run."),
+    "engine": "rapidcheck",
+    "technique": "property-based testing (rapidcheck) over generated connection-event histories against a live endpoint; oracle = history invariants per peer (callback word), object-lifetime and descriptor-count balance",
+    "level_text": "Generated histories of connection events against the real server, with invariants over the observed callback history and process resources. Exploration only.",
+    "level_note": "HTTP-level variant (Http::Handler subclass whose onConnection performs the base class's one-line parser registration); the idle scan / 408 path is included. Endpoint-lifetime descriptors are part of the baseline. Quiescence is polled with 3-4 s bounds (3x replay rule).",
+    "assumptions": ["/proc/self/fd reflects leaked sockets; no other thread of the harness opens descriptors during a case"],
+    "quick": {"stages": [{"kind": "replay"}, {"kind": "rc", "procs": 6, "cases": 8, "maxlen": 300}]},
+    "thorough": {"stages": [{"kind": "replay"}, {"kind": "rc", "procs": 8, "cases": 120, "maxlen": 300}]},
 }
